@@ -78,7 +78,8 @@ def version_include():
         maj, mnr, pat = m.groups() if m else ("1", "1", "0")
         txt = (txt.replace("@CMAKE_PROJECT_VERSION_MAJOR@", maj).replace("@CMAKE_PROJECT_VERSION_MINOR@", mnr)
                .replace("@CMAKE_PROJECT_VERSION_PATCH@", pat).replace("@CMAKE_PROJECT_VERSION@", f"{maj}.{mnr}.{pat}"))
-        tmp = out + f".{os.getpid()}.tmp"
+        import threading
+        tmp = out + f".{os.getpid()}.{threading.get_ident()}.tmp"
         with open(tmp, "w") as fh:
             fh.write(txt)
         os.replace(tmp, out)
